@@ -53,10 +53,11 @@ func DocNum(s string) int64 {
 var Words = []string{"alpha", "beta", "gamma", "delta", "epsilon", "zeta"}
 
 type Doc struct {
-	V    string  `json:"v"`
-	Body string  `json:"body"`
-	Tag  string  `json:"tag"`
-	N    float64 `json:"n"`
+	V    string   `json:"v"`
+	Body string   `json:"body"`
+	Tag  string   `json:"tag"`
+	N    float64  `json:"n"`
+	Arr  []string `json:"arr"` // 0-3 stored array elements (length varies between versions of one id)
 }
 
 // DocFor derives a deterministic document body from (id, version).
@@ -71,7 +72,11 @@ func DocFor(id int, ver int64) Doc {
 		}
 		body += Words[(h>>33)%uint64(len(Words))]
 	}
-	return Doc{V: strconv.FormatInt(ver, 10), Body: body, Tag: Words[(h>>20)%3], N: float64((h >> 40) % 7)}
+	d := Doc{V: strconv.FormatInt(ver, 10), Body: body, Tag: Words[(h>>20)%3], N: float64((h >> 40) % 7), Arr: []string{}}
+	for i := 0; i < int((h>>50)%4); i++ {
+		d.Arr = append(d.Arr, fmt.Sprintf("e%d-%d", i, ver))
+	}
+	return d
 }
 
 func Mapping() mapping.IndexMapping {
@@ -91,6 +96,9 @@ func Mapping() mapping.IndexMapping {
 	n := bleve.NewNumericFieldMapping()
 	n.Store = true
 	dm.AddFieldMappingsAt("n", n)
+	arr := bleve.NewKeywordFieldMapping()
+	arr.Store = true
+	dm.AddFieldMappingsAt("arr", arr)
 	m.DefaultMapping = dm
 	return m
 }
@@ -222,15 +230,48 @@ func OpsTerms(ops []Op) (docs, ints []cf.T) {
 
 func OptVer(p *int64) cf.T { return cf.Opt(p, func(v int64) cf.T { return cf.Z(v) }) }
 
+// StoredVersion returns the version a retrieved document claims to be, after checking that ALL
+// its stored fields are exactly what was indexed for that (id, version); any deviation (a stale
+// array element, a field of another document, ...) yields -2, which no model state predicts.
 func StoredVersion(d index.Document) int64 {
 	v := int64(-1)
+	got := map[string][]string{}
 	d.VisitFields(func(f index.Field) {
+		val := string(f.Value())
+		if nf, ok := f.(index.NumericField); ok {
+			if x, err := nf.Number(); err == nil {
+				val = strconv.FormatFloat(x, 'g', -1, 64)
+			}
+		}
+		got[f.Name()] = append(got[f.Name()], val)
 		if f.Name() == "v" {
-			if x, e := strconv.ParseInt(string(f.Value()), 10, 64); e == nil {
+			if x, e := strconv.ParseInt(val, 10, 64); e == nil {
 				v = x
 			}
 		}
 	})
+	if v < 0 {
+		return v
+	}
+	want := DocFor(int(DocNum(d.ID())), v)
+	exp := map[string][]string{"v": {want.V}, "body": {want.Body}, "tag": {want.Tag}, "n": {strconv.FormatFloat(want.N, 'g', -1, 64)}}
+	if len(want.Arr) > 0 {
+		exp["arr"] = want.Arr
+	}
+	if len(got) != len(exp) {
+		return -2
+	}
+	for k, vs := range exp {
+		g := got[k]
+		if len(g) != len(vs) {
+			return -2
+		}
+		for i := range vs {
+			if g[i] != vs[i] {
+				return -2
+			}
+		}
+	}
 	return v
 }
 
